@@ -1,7 +1,7 @@
 (* RbcBracha: the Bracha argument on the network model of RbcModel (C14): invariants of every schedule (fold_left gstep)
    giving agreement and integrity of the delivered values. *)
 From Coq Require Import ZArith List Bool Lia.
-From LT Require Import RbcModel RbcLemmas RbcOrder RbcStep RbcStep2 RbcStep3 RbcAgreement.
+From LT Require Import RbcModel RbcLemmas RbcOrder RbcStep RbcStep2 RbcStep3 RbcStep4 RbcAgreement.
 Import ListNotations.
 Local Open Scope Z_scope.
 
@@ -947,7 +947,7 @@ Proof.
   intros IH q l tg F. destruct (scases q) as [[-> E]|[N E]]; rewrite E in *.
   - destruct (filt (gp g p) FReady l tg) eqn:F0.
     + destruct (IH _ _ _ F0) as [Y|(m & I & X)]; auto. right. exists m. auto.
-    + destruct Q3 as (_ & _ & _ & _ & Fc). destruct (Fc _ _ F0 F) as (m & Eo & Tm & Am & _).
+    + destruct Q3 as (_ & _ & _ & _ & Fc & _). destruct (Fc _ _ F0 F) as (m & Eo & Tm & Am & _).
       destruct (can_recv_spec g p l m (CR l m Eo)) as (_ & [Y|I]); auto. right. exists m. auto.
   - destruct (IH _ _ _ F) as [Y|(m & I & X)]; auto. right. exists m. auto.
 Qed.
@@ -980,7 +980,7 @@ Proof.
   intros I0 IH q tg d TL. destruct (scases q) as [[-> E]|[N E]]; rewrite E in *.
   - destruct (IH p tg d TL) as (L & ND & Len & AF & AC).
     pose proof Q as Q0. destruct Q0 as (Fm & _ & Cr & _).
-    pose proof Q3 as Q30. destruct Q30 as (_ & _ & _ & _ & Fc).
+    pose proof Q3 as Q30. destruct Q30 as (_ & _ & _ & _ & Fc & _).
     (* a peer whose filter is set after the step, not faulty, and that sent ready(tg,d): old filter -> already in L *)
     assert (OLD : forall l, filt (gp g p) FReady l tg = true -> byz l = false -> sent_ready g' l p tg d -> In l L).
     { intros l F0 Nb (m & Im & Tm & Am & Pm). apply AC; auto.
@@ -1040,6 +1040,33 @@ Proof.
   intros es. apply (grun_ind n t skip H toolong byz (fun g => INV g /\ INV3 g)).
   - split; [exact INV_init|exact INV3_init].
   - intros g e [I I3]. split; [apply INV_step; exact I|apply INV3_step; auto].
+Qed.
+
+(* an echo quorum makes a party send r-ready unless it already had t+1 readys (the t = 0 case of the ready rule) *)
+Definition G2e (g : gst) := forall q tg d, n - t <= ed (gp g q) tg d ->
+  (exists dst, sent_ready g q dst tg d) \/ t + 1 <= rd (gp g q) tg d.
+
+Lemma G2e_step : forall g e, G2e g -> G2e (gstep g e).
+Proof.
+  intros g e IH.
+  destruct (gstep_cases3 g e) as [E|(p & st' & out & r & offer & Hp & Q & Q3 & CR & E1 & E2 & E3)]; [rewrite E; exact IH|].
+  intros q tg d C.
+  assert (MONO : forall q0 dst, sent_ready g q0 dst tg d -> sent_ready (gstep g e) q0 dst tg d).
+  { intros q0 dst (m & I & X). exists m. split; auto. rewrite E2. apply in_or_app. auto. }
+  destruct (state_cases g (gstep g e) p st' E1 q) as [[-> E]|[N E]]; rewrite E in *.
+  - destruct Q3 as (_ & _ & _ & _ & _ & Et). destruct Q as (_ & _ & Cr & _).
+    assert (RM : rd (gp g p) tg d <= rd st' tg d).
+    { destruct (Cr tg d) as [X|(? & ? & _ & _ & _ & _ & _ & X & _)]; lia. }
+    destruct (Et tg d C) as [C0|[(dst & x & I & Tx & Ax & Px)|C0]]; auto.
+    + destruct (IH _ _ _ C0) as [(dst & S)|R]; [left; exists dst; apply MONO; exact S|right; lia].
+    + left. exists dst, x. split; auto. rewrite E2. apply in_or_app. right. unfold tagged. apply in_map_iff. exists (dst, x). auto.
+  - destruct (IH _ _ _ C) as [(dst & S)|R]; [left; exists dst; apply MONO; exact S|right; exact R].
+Qed.
+
+Theorem G2e_run : forall es, G2e (run es).
+Proof.
+  intros es. apply (grun_ind n t skip H toolong byz G2e); [|exact G2e_step].
+  intros q tg d C. unfold ginit, pinit in C. cbn [gp ed] in C. lia.
 Qed.
 
 (* every r-ready an honest party sent has been handed over to its honest receivers *)
@@ -1119,6 +1146,692 @@ Proof.
   f_equal. eapply (dbar_agree g I); eauto.
 Qed.
 
+(* ==== fourth layer: the delivery clause on the FIFO root channel ========================================== *)
+Notation pstep4 := (pstep4 n t H toolong skip).
+
+Definition noswitch (e : event) : bool :=
+  match e with ESetID _ _ _ | ERecoverID _ _ _ | EUnsetID _ _ => false | _ => true end.
+
+Definition bcfact (p : Z) (st st' : pst) (out : list (Z * msg)) : Prop :=
+  (sq st' = sq st /\ forall dst x, In (dst, x) out -> m_act x <> 1) \/
+  (exists v, out = to_all n (Msg (cur st) p (sq st') 1 v) /\ (fifo st = true -> sq st' = sq st + 1)).
+
+Lemma pstep_no_rsend : forall st st' out r off, pstep st st' out r off -> forall dst x, In (dst, x) out -> m_act x <> 1.
+Proof. intros st st' out r off (_ & _ & _ & _ & _ & S & _) dst x I. destruct (S _ _ I) as [N _]. exact N. Qed.
+
+Lemma deliver_from_sq : forall me st i off, sq (o_st (fst (deliver_from n t skip H toolong me st i off))) = sq st.
+Proof.
+  intros me st i off. unfold RbcModel.deliver_from. destruct ((i <? 0) || (i >=? n)); [reflexivity|].
+  destruct (take_chan (cur st) [] (fbuf st i)) as [[v rest]|]; [reflexivity|].
+  pose proof (deliver_spec n t skip H toolong me st off) as [(_ & C2 & _) _].
+  destruct (o_res (deliver n t skip H toolong me st off)); cbn; auto.
+Qed.
+
+Lemma gstep_cases4 : forall g e, noswitch e = true ->
+  gstep g e = g \/
+  exists p st' out r offer,
+    hon p /\ qstep (gp g p) st' out r offer /\ pstep2 (gp g p) st' out r offer /\ pstep3 (gp g p) st' out offer /\
+    pstep4 (gp g p) st' out r offer /\
+    cur st' = cur (gp g p) /\ fifo st' = fifo (gp g p) /\ dres_ok skip (gp g p) st' r /\ bcfact p (gp g p) st' out /\
+    (forall l m, offer = Some (l, m) -> can_recv n byz g p l m = true) /\
+    gp (gstep g e) = updZ (gp g) p st' /\
+    gsent (gstep g e) = gsent g ++ tagged p out /\
+    glog (gstep g e) = glog g ++ log_of p r.
+Proof.
+  intros g e NS. destruct e; try discriminate; cbn [RbcModel.gstep].
+  - destruct (honest n byz p) eqn:Hp; auto. right. unfold broadcast.
+    set (s' := if fifo (gp g p) then sq (gp g p) + 1 else coin).
+    exists p, (set_sq (gp g p) s'), (to_all n (Msg (cur (gp g p)) p s' 1 m)), RNone, None.
+    split; [exact Hp|]. split; [|split; [|split; [|split; [|split; [reflexivity|split; [reflexivity|split; [cbn; auto|split; [|split; [discriminate|cbn; rewrite app_nil_r; auto]]]]]]]]].
+    5: { right. exists m. split; [reflexivity|]. intros F. unfold s'. cbn. rewrite F. reflexivity. }
+    + apply qstep_same; [repeat split|]. intros dst x I. apply in_to_all in I. subst. reflexivity.
+    + apply pstep2_same; auto. intros dst x I. apply in_to_all in I. subst. cbn. lia.
+    + apply pstep3_same; auto. intros dst x I. apply in_to_all in I. subst. cbn. discriminate.
+    + apply pstep4_same; auto. intros dst x I. apply in_to_all in I. subst. cbn. auto.
+  - destruct (honest n byz p && can_recv n byz g p l m) eqn:G; auto. right. apply andb_true_iff in G. destruct G as [Hp C].
+    pose proof (deliver_spec n t skip H toolong p (gp g p) (Some (l, m))) as [(C1 & C2 & C3 & _) DR].
+    eexists p, _, _, _, (Some (l, m)). split; [exact Hp|]. split; [apply pstep_qstep; apply (deliver_pstep n t H toolong skip)|].
+    split; [apply (deliver_pstep2 n t H toolong skip)|]. split; [apply (deliver_pstep3 n t H toolong skip)|].
+    split; [apply (deliver_pstep4 n t H toolong skip)|]. split; [symmetry; exact C1|]. split; [symmetry; exact C3|]. split; [exact DR|].
+    split; [left; split; [symmetry; exact C2|eapply pstep_no_rsend; apply (deliver_pstep n t H toolong skip)]|].
+    split; [intros l0 m0 E; inversion E; subst; exact C|]. cbn. auto.
+  - destruct (honest n byz p) eqn:Hp; auto. right.
+    pose proof (deliver_spec n t skip H toolong p (gp g p) None) as [(C1 & C2 & C3 & _) DR].
+    eexists p, _, _, _, None. split; [exact Hp|]. split; [apply pstep_qstep; apply (deliver_pstep n t H toolong skip)|].
+    split; [apply (deliver_pstep2 n t H toolong skip)|]. split; [apply (deliver_pstep3 n t H toolong skip)|].
+    split; [apply (deliver_pstep4 n t H toolong skip)|]. split; [symmetry; exact C1|]. split; [symmetry; exact C3|]. split; [exact DR|].
+    split; [left; split; [symmetry; exact C2|eapply pstep_no_rsend; apply (deliver_pstep n t H toolong skip)]|].
+    split; [discriminate|]. cbn. auto.
+  - destruct (honest n byz p && can_recv n byz g p l m) eqn:G; auto. right. apply andb_true_iff in G. destruct G as [Hp C].
+    pose proof (deliver_from_spec n t skip H toolong p (gp g p) i (Some (l, m))) as DS. cbv zeta in DS. destruct DS as (C1 & C3 & DR & _).
+    eexists p, _, _, _, (Some (l, m)). split; [exact Hp|].
+    split; [apply pstep_qstep; apply (deliver_from_pstep n t H toolong skip p (gp g p) i (Some (l, m)))|].
+    split; [apply (deliver_from_pstep2 n t H toolong skip p (gp g p) i (Some (l, m)))|].
+    split; [apply (deliver_from_pstep3 n t H toolong skip p (gp g p) i (Some (l, m)))|].
+    split; [apply (deliver_from_pstep4 n t H toolong skip p (gp g p) i (Some (l, m)))|].
+    split; [exact C1|]. split; [exact C3|]. split; [exact DR|].
+    split; [left; split; [apply deliver_from_sq|eapply pstep_no_rsend; apply (deliver_from_pstep n t H toolong skip p (gp g p) i (Some (l, m)))]|].
+    split; [intros l0 m0 E; inversion E; subst; exact C|]. unfold apply_from.
+    destruct (snd (deliver_from n t skip H toolong p (gp g p) i (Some (l, m)))); cbn; auto.
+  - destruct (honest n byz p) eqn:Hp; auto. right.
+    pose proof (deliver_from_spec n t skip H toolong p (gp g p) i None) as DS. cbv zeta in DS. destruct DS as (C1 & C3 & DR & _).
+    eexists p, _, _, _, None. split; [exact Hp|].
+    split; [apply pstep_qstep; apply (deliver_from_pstep n t H toolong skip p (gp g p) i None)|].
+    split; [apply (deliver_from_pstep2 n t H toolong skip p (gp g p) i None)|].
+    split; [apply (deliver_from_pstep3 n t H toolong skip p (gp g p) i None)|].
+    split; [apply (deliver_from_pstep4 n t H toolong skip p (gp g p) i None)|].
+    split; [exact C1|]. split; [exact C3|]. split; [exact DR|].
+    split; [left; split; [apply deliver_from_sq|eapply pstep_no_rsend; apply (deliver_from_pstep n t H toolong skip p (gp g p) i None)]|].
+    split; [discriminate|]. unfold apply_from.
+    destruct (snd (deliver_from n t skip H toolong p (gp g p) i None)); cbn; auto.
+Qed.
+
+Hypothesis Hskip : skip = 0.
+Hypothesis H_inj : forall a b, H a = H b -> a = b.
+
+(* every party sits on the FIFO root channel (runs without channel switches) *)
+Definition NS (g : gst) := forall p, cur (gp g p) = 0 /\ fifo (gp g p) = true.
+(* the delivery counter and the log: delivered slots of sender w are exactly 1 .. deliver_s[w]-1 *)
+Definition DL (g : gst) :=
+  (forall q id w s v, In (q, (id, w, s), v) (glog g) -> id = 0 /\ 1 <= s < dls (gp g q) w) /\
+  (forall q w s, 1 <= s < dls (gp g q) w -> exists v, In (q, (0, w, s), v) (glog g)) /\
+  (forall q w, 1 <= dls (gp g q) w).
+Definition K1 (g : gst) := forall p dst x, In (p, dst, x) (gsent g) -> m_act x <> 1 -> m_act x <> 6 -> 0 <= m_j x < n /\ 1 <= m_s x.
+Definition K2 (g : gst) := forall p dst x, In (p, dst, x) (gsent g) -> m_act x = 2 -> forall i, 0 <= i < n -> In (p, i, x) (gsent g).
+Definition K3 (g : gst) := forall p dst x, In (p, dst, x) (gsent g) -> m_act x = 2 -> mbar (gp g p) (mtag x) <> None.
+(* r-send messages of a party on the FIFO channel: numbered 1 .. s, one payload per number, sent to everybody *)
+Definition U0 (g : gst) := forall j dst m, In (j, dst, m) (gsent g) -> m_act m = 1 -> m_id m = 0 /\ m_j m = j /\ 1 <= m_s m <= sq (gp g j).
+Definition U1 (g : gst) := forall j d1 m1 d2 m2, In (j, d1, m1) (gsent g) -> In (j, d2, m2) (gsent g) ->
+  m_act m1 = 1 -> m_act m2 = 1 -> mtag m1 = mtag m2 -> m_pay m1 = m_pay m2.
+Definition U2 (g : gst) := forall j, 0 <= sq (gp g j) /\
+  forall s, 1 <= s <= sq (gp g j) -> exists v, forall i, 0 <= i < n -> In (j, i, Msg 0 j s 1 v) (gsent g).
+
+Definition INV4a (g : gst) : Prop := NS g /\ DL g /\ K1 g /\ K2 g /\ K3 g /\ U0 g /\ U1 g /\ U2 g.
+
+Section OneStep4.
+Variables (g g' : gst) (p : Z) (st' : pst) (out : list (Z * msg)) (r : dres) (offer : option (Z * msg)).
+Hypothesis Hp : hon p.
+Hypothesis Q : qstep (gp g p) st' out r offer.
+Hypothesis Q2 : pstep2 (gp g p) st' out r offer.
+Hypothesis Q3 : pstep3 (gp g p) st' out offer.
+Hypothesis Q4 : pstep4 (gp g p) st' out r offer.
+Hypothesis Ecur : cur st' = cur (gp g p).
+Hypothesis Efifo : fifo st' = fifo (gp g p).
+Hypothesis DR : dres_ok skip (gp g p) st' r.
+Hypothesis BC : bcfact p (gp g p) st' out.
+Hypothesis CR : forall l m, offer = Some (l, m) -> can_recv n byz g p l m = true.
+Hypothesis Egp : gp g' = updZ (gp g) p st'.
+Hypothesis Esent : gsent g' = gsent g ++ tagged p out.
+Hypothesis Elog : glog g' = glog g ++ log_of p r.
+Hypothesis NSg : NS g.
+
+Let smono4 := sent_mono g g' p out Esent.
+Let scases4 := state_cases g g' p st' Egp.
+Let snew4 := snew g g' p out Esent.
+
+Lemma in_tagged : forall dst x, In (dst, x) out -> In (p, dst, x) (gsent g').
+Proof. intros dst x I. rewrite Esent. apply in_or_app. right. unfold tagged. apply in_map_iff. exists (dst, x). auto. Qed.
+
+Lemma p_range : 0 <= p < n.
+Proof. unfold honest, is_party in Hp. b2p. lia. Qed.
+
+Lemma NS_step : NS g'.
+Proof.
+  intros q. destruct (scases4 q) as [[-> E]|[N E]]; rewrite E; [|apply NSg].
+  destruct (NSg p) as [C F]. split; congruence.
+Qed.
+
+(* what a step does to the delivery counters (fifo_skip = 0) *)
+Lemma dls_step : (r = RNone \/ r = RThrow) /\ dls st' = dls (gp g p) \/
+  exists who s v, r = RDeliver who (0, who, s) v /\ s = dls (gp g p) who /\ dls st' = updZ (dls (gp g p)) who (s + 1).
+Proof.
+  destruct (NSg p) as [C F]. unfold dres_ok in DR. destruct r as [|who tg v|].
+  - left. split; [auto|apply DR; exact Hskip].
+  - right. destruct DR as ((s & -> & _ & S) & _ & D). rewrite C. exists who, s, v.
+    split; [reflexivity|]. split; [apply S; auto|]. rewrite (D Hskip). rewrite <- (S F Hskip). reflexivity.
+  - left. split; [auto|apply DR; exact Hskip].
+Qed.
+
+Lemma DL_step : DL g -> DL g'.
+Proof.
+  intros (A & Bq & C). unfold DL. split; [|split].
+  - intros q id w s v I. rewrite Elog in I. apply in_app_or in I. destruct I as [I|I].
+    + destruct (A _ _ _ _ _ I) as (-> & R). split; auto.
+      destruct (scases4 q) as [[-> E]|[N E]]; rewrite E; auto.
+      destruct dls_step as [[_ D]|(who & s0 & v0 & _ & -> & D)]; rewrite D; auto.
+      unfold updZ. destruct (w =? who) eqn:X; b2p; subst; lia.
+    + apply log_of_in in I. destruct I as (-> & who & Er).
+      destruct dls_step as [[[D|D] _]|(who' & s0 & v0 & Er' & -> & D)]; try congruence.
+      rewrite Er in Er'. inversion Er'; subst. split; auto.
+      destruct (scases4 p) as [[_ E]|[N _]]; [|congruence]. rewrite E, D, updZ_same. pose proof (C p who'). lia.
+  - intros q w s R. destruct (scases4 q) as [[-> E]|[N E]]; rewrite E in R.
+    + destruct dls_step as [[_ D]|(who & s0 & v0 & Er & -> & D)]; rewrite D in R.
+      * destruct (Bq _ _ _ R) as (v & I). exists v. rewrite Elog. apply in_or_app. auto.
+      * unfold updZ in R. destruct (w =? who) eqn:X; b2p.
+        -- subst w. destruct (Z.eq_dec s (dls (gp g p) who)) as [->|NE].
+           ++ exists v0. rewrite Elog, Er. apply in_or_app. right. cbn. auto.
+           ++ destruct (Bq p who s) as (v & I); [lia|]. exists v. rewrite Elog. apply in_or_app. auto.
+        -- destruct (Bq _ _ _ R) as (v & I). exists v. rewrite Elog. apply in_or_app. auto.
+    + destruct (Bq _ _ _ R) as (v & I). exists v. rewrite Elog. apply in_or_app. auto.
+  - intros q w. destruct (scases4 q) as [[-> E]|[N E]]; rewrite E; auto.
+    destruct dls_step as [[_ D]|(who & s0 & v0 & _ & -> & D)]; rewrite D; auto.
+    unfold updZ. destruct (w =? who) eqn:X; b2p; subst; auto. pose proof (C p who). lia.
+Qed.
+
+Lemma K1_step : K1 g -> K1 g'.
+Proof.
+  intros IH q dst x I N1 N6. apply snew4 in I. destruct I as [I|[-> I]]; [eapply IH; eauto|].
+  destruct Q4 as (W & _). eapply W; eauto.
+Qed.
+
+Lemma K2_step : K2 g -> K2 g'.
+Proof.
+  intros IH q dst x I A i Ri. apply snew4 in I. destruct I as [I|[-> I]].
+  - apply smono4. eapply IH; eauto.
+  - destruct Q4 as (_ & _ & Ea & _). destruct (Ea _ _ I A) as (Al & _). apply in_tagged. apply Al. apply range_in. exact Ri.
+Qed.
+
+Lemma mbar_keep : forall tg, mbar (gp g p) tg <> None -> mbar st' tg <> None.
+Proof. intros tg N. destruct Q2 as (Mc & _). destruct (Mc tg) as [E|(x & E & _)]; congruence. Qed.
+
+Lemma K3_step : K3 g -> K3 g'.
+Proof.
+  intros IH q dst x I A. apply snew4 in I. destruct I as [I|[-> I]].
+  - destruct (scases4 q) as [[-> E]|[N E]]; rewrite E; [apply mbar_keep|]; eapply IH; eauto.
+  - destruct (scases4 p) as [[_ E]|[N _]]; [|congruence]. rewrite E.
+    destruct Q4 as (_ & _ & Ea & _). destruct (Ea _ _ I A) as (_ & v & M & _). congruence.
+Qed.
+
+Lemma U0_step : U2 g -> U0 g -> U0 g'.
+Proof.
+  intros A2 IH j dst m I A. apply snew4 in I. destruct I as [I|[-> I]].
+  - destruct (IH _ _ _ I A) as (E1 & E2 & E3). repeat split; auto; try lia.
+    destruct (scases4 j) as [[-> E]|[N E]]; rewrite E; [|lia].
+    destruct BC as [[S _]|(v & _ & S)]; [lia|]. destruct (NSg p) as [_ F]. rewrite (S F). lia.
+  - destruct (scases4 p) as [[_ E]|[N _]]; [|congruence]. rewrite E.
+    destruct BC as [[_ S]|(v & -> & S)]; [exfalso; eapply S; eauto|].
+    apply in_to_all in I. subst m. cbn. destruct (NSg p) as [C F]. rewrite (S F), C.
+    destruct (A2 p) as [P0 _]. repeat split; auto; lia.
+Qed.
+
+Lemma U1_step : U0 g -> U1 g -> U1 g'.
+Proof.
+  intros A0 IH j d1 m1 d2 m2 I1 I2 A1 A2 T. apply snew4 in I1. apply snew4 in I2.
+  assert (OLDNEW : forall mo mn d d', In (p, d, mo) (gsent g) -> m_act mo = 1 -> In (d', mn) out -> m_act mn = 1 ->
+                   mtag mo = mtag mn -> False).
+  { intros mo mn d d' Io Ao In_ An Tn. destruct (A0 _ _ _ Io Ao) as (_ & _ & S).
+    destruct BC as [[_ X]|(v & -> & X)]; [eapply X; eauto|].
+    apply in_to_all in In_. subst mn. unfold mtag in Tn. cbn in Tn. inversion Tn.
+    destruct (NSg p) as [_ F]. rewrite (X F) in *. lia. }
+  destruct I1 as [I1|[-> I1]], I2 as [I2|[E2 I2]].
+  - eapply IH; eauto.
+  - subst j. exfalso. eapply OLDNEW; eauto.
+  - exfalso. eapply (OLDNEW m2 m1); eauto.
+  - destruct BC as [[_ X]|(v & -> & X)]; [exfalso; eapply X; eauto|].
+    apply in_to_all in I1. apply in_to_all in I2. congruence.
+Qed.
+
+Lemma U2_step : U2 g -> U2 g'.
+Proof.
+  intros IH j. destruct (IH j) as [P0 Al]. destruct (scases4 j) as [[-> E]|[N E]]; rewrite E.
+  - destruct BC as [[S _]|(v & Eo & S)].
+    + rewrite S. split; auto. intros s R. destruct (Al s R) as (v & Av). exists v. intros i Ri. apply smono4. auto.
+    + destruct (NSg p) as [C F]. rewrite (S F). split; [lia|]. intros s R.
+      destruct (Z.eq_dec s (sq (gp g p) + 1)) as [->|NE].
+      * exists v. intros i Ri. apply in_tagged. rewrite Eo, (S F), C. unfold to_all. apply in_map_iff. exists i.
+        split; auto. apply range_in. exact Ri.
+      * destruct (Al s) as (v' & Av); [lia|]. exists v'. intros i Ri. apply smono4. auto.
+  - split; auto. intros s R. destruct (Al s R) as (v & Av). exists v. intros i Ri. apply smono4. auto.
+Qed.
+
+Lemma INV4a_onestep : INV4a g -> INV4a g'.
+Proof.
+  intros (_ & A1 & A2 & A3 & A4 & A5 & A6 & A7). unfold INV4a.
+  split; [apply NS_step|]. split; [apply DL_step; auto|]. split; [apply K1_step; auto|]. split; [apply K2_step; auto|].
+  split; [apply K3_step; auto|]. split; [apply U0_step; auto|]. split; [apply U1_step; auto|apply U2_step; auto].
+Qed.
+End OneStep4.
+
+Lemma INV4a_init : INV4a ginit.
+Proof.
+  unfold INV4a. split; [|split; [|split; [|split; [|split; [|split; [|split]]]]]].
+  - intros p. cbn. auto.
+  - unfold DL. split; [|split].
+    + intros q id w s v [].
+    + intros q w s R. cbn in R. lia.
+    + intros q w. cbn. lia.
+  - intros p dst x [].
+  - intros p dst x [].
+  - intros p dst x [].
+  - intros j dst m [].
+  - intros j d1 m1 d2 m2 [].
+  - intros j. cbn. split; [lia|]. intros s R. lia.
+Qed.
+
+Lemma INV4a_step : forall g e, noswitch e = true -> INV4a g -> INV4a (gstep g e).
+Proof.
+  intros g e NSe I.
+  destruct (gstep_cases4 g e NSe) as [E|(p & st' & out & r & offer & Hp & Q & Q2 & Q3 & Q4 & C1 & C3 & DR & BC & CR & E1 & E2 & E3)].
+  - rewrite E. exact I.
+  - eapply INV4a_onestep; eauto. destruct I as (X & _). exact X.
+Qed.
+
+(* induction over runs without channel switches *)
+Lemma grun_ind_ns : forall (P : gst -> Prop), P ginit -> (forall g e, noswitch e = true -> P g -> P (gstep g e)) ->
+  forall es, forallb noswitch es = true -> P (run es).
+Proof.
+  intros P P0 PS es. unfold grun.
+  assert (G : forall l g, forallb noswitch l = true -> P g -> P (fold_left gstep l g)).
+  { induction l as [|e r IH]; cbn; auto. intros g F Pg. apply andb_true_iff in F. destruct F as [F1 F2]. apply IH; auto. }
+  intros F. apply G; auto.
+Qed.
+
+
+(* ---- layer 4b: from r-send to delivery attempt ------------------------------------------------------------- *)
+(* a supported digest of a tag whose sender is not faulty is the digest of what that sender sent *)
+Lemma Sup_send_digest : forall g, INV g -> U1 g -> forall k id s d, Sup g (id, k, s) d -> byz k = false ->
+  forall dst m, In (k, dst, m) (gsent g) -> m_act m = 1 -> mtag m = (id, k, s) -> d = H (m_pay m).
+Proof.
+  intros g I A1 k id s d (L & ND & Len & AL) Nb dst m Im Am Tm.
+  destruct (nodup_exceeds_honest B L ND) as (l & J & NB); [lia|].
+  destruct (AL l J) as (_ & [Y|(dst' & x & Ix & Tx & Ax & Px)]); [exfalso; auto|].
+  pose proof I as (_ & _ & _ & _ & A4 & _).
+  destruct (A4 _ _ _ Ix Ax) as (m' & Tm' & Am' & Pm' & M).
+  assert (Jx : m_j x = k). { unfold mtag in Tx. inversion Tx. reflexivity. }
+  rewrite Jx in M. destruct M as [M|M]; [congruence|].
+  rewrite <- Px, Pm'. f_equal. eapply A1; eauto. congruence.
+Qed.
+
+Definition sent_echo (g : gst) (l q : Z) (tg : tagT) (d : Z) : Prop :=
+  exists m, In (l, q, m) (gsent g) /\ mtag m = tg /\ m_act m = 2 /\ m_pay m = d.
+
+Definition K5 (g : gst) := forall q k id s, filt (gp g q) FSend k (id, k, s) = true -> byz k = false ->
+  exists v, (exists dst m, In (k, dst, m) (gsent g) /\ mtag m = (id, k, s) /\ m_act m = 1 /\ m_pay m = v) /\
+            mbar (gp g q) (id, k, s) = Some v /\ echoed g q (id, k, s) (H v).
+Definition G0e (g : gst) := forall q l tg, filt (gp g q) FEcho l tg = true ->
+  byz l = true \/ exists m, In (l, q, m) (gsent g) /\ mtag m = tg /\ m_act m = 2.
+Definition G4e (g : gst) := forall q tg d, toolong tg d = false ->
+  exists L, NoDup L /\ Z.of_nat (length L) = ed (gp g q) tg d /\
+    (forall l, In l L -> filt (gp g q) FEcho l tg = true) /\
+    (forall l, filt (gp g q) FEcho l tg = true -> byz l = false -> sent_echo g l q tg d -> In l L).
+
+Definition RQa (g : gst) := forall q dst x, In (q, dst, x) (gsent g) -> m_act x = 4 -> dbar (gp g q) (mtag x) = Some (m_pay x).
+Definition RQb (g : gst) := forall q dst x, In (q, dst, x) (gsent g) -> m_act x = 4 -> forall i, 0 <= i <= 2 * t -> In (q, i, x) (gsent g).
+Definition K9 (g : gst) := forall l q tg, filt (gp g l) FRequest q tg = true ->
+  byz q = true \/ exists m, In (q, l, m) (gsent g) /\ mtag m = tg /\ m_act m = 4.
+(* when a request was sent, an echo quorum for the requested digest existed; its honest members answer when asked *)
+Definition RQc (g : gst) := forall q dst x, In (q, dst, x) (gsent g) -> m_act x = 4 ->
+  exists W, NoDup W /\ n - t <= Z.of_nat (length W) /\
+    forall l, In l W -> 0 <= l < n /\
+      (byz l = true \/ (echoed g l (mtag x) (m_pay x) /\
+                       (filt (gp g l) FRequest q (mtag x) = true -> exists a, In (l, q, a) (gsent g) /\ m_act a = 5 /\ mtag a = mtag x))).
+Definition K10 (g : gst) := forall l q a, In (l, q, a) (gsent g) -> m_act a = 5 ->
+  (byz q = true \/ exists m, In (q, l, m) (gsent g) /\ m_act m = 4 /\ mtag m = mtag a) /\
+  (echoed g l (mtag a) (H (m_pay a)) \/ Sup g (mtag a) (H (m_pay a))).
+(* a delivery attempt was made for tg at q: delivered, waiting in the deliver buffer, or dropped as obsolete *)
+Definition TD (g : gst) (q : Z) (tg : tagT) : Prop :=
+  (exists v, In (q, tg, v) (glog g)) \/ In tg (dbuf (gp g q)) \/ obsolete (gp g q) tg = true.
+Definition K11 (g : gst) := forall q l tg, filt (gp g q) FAnswer l tg = true -> byz l = false ->
+  TD g q tg \/ exists a db, In (l, q, a) (gsent g) /\ m_act a = 5 /\ mtag a = tg /\ dbar (gp g q) tg = Some db /\ db <> H (m_pay a).
+Definition K12 (g : gst) := forall q tg, dbar (gp g q) tg <> None ->
+  TD g q tg \/ exists x, m_act x = 4 /\ mtag x = tg /\ forall i, 0 <= i <= 2 * t -> In (q, i, x) (gsent g).
+
+Definition has_dbar (g : gst) (tg : tagT) : Prop := exists p' d, dbar (gp g p') tg = Some d.
+(* on the FIFO root channel every delivery, every deliver-buffer entry and every l-deliver answer for a root-channel tag goes
+   back to a party that fixed a digest by 2t+1 r-ready *)
+Definition K13 (g : gst) :=
+  (forall q w s v, In (q, (0, w, s), v) (glog g) -> has_dbar g (0, w, s)) /\
+  (forall q w s, In (0, w, s) (dbuf (gp g q)) -> has_dbar g (0, w, s)) /\
+  (forall l dst x, In (l, dst, x) (gsent g) -> m_act x = 7 -> m_id x = 0 -> has_dbar g (mtag x)).
+
+Section OneStep4b.
+Variables (g g' : gst) (p : Z) (st' : pst) (out : list (Z * msg)) (r : dres) (offer : option (Z * msg)).
+Hypothesis Hp : hon p.
+Hypothesis Q : qstep (gp g p) st' out r offer.
+Hypothesis Q2 : pstep2 (gp g p) st' out r offer.
+Hypothesis Q3 : pstep3 (gp g p) st' out offer.
+Hypothesis Q4 : pstep4 (gp g p) st' out r offer.
+Hypothesis Ecur : cur st' = cur (gp g p).
+Hypothesis Efifo : fifo st' = fifo (gp g p).
+Hypothesis DR : dres_ok skip (gp g p) st' r.
+Hypothesis CR : forall l m, offer = Some (l, m) -> can_recv n byz g p l m = true.
+Hypothesis Egp : gp g' = updZ (gp g) p st'.
+Hypothesis Esent : gsent g' = gsent g ++ tagged p out.
+Hypothesis Elog : glog g' = glog g ++ log_of p r.
+Hypothesis Ig : INV g.
+Hypothesis Ig' : INV g'.
+Hypothesis I2g : INV2 g.
+Hypothesis I2g' : INV2 g'.
+Hypothesis I4g : INV4a g.
+Hypothesis I4g' : INV4a g'.
+
+Let smonob := sent_mono g g' p out Esent.
+Let scasesb := state_cases g g' p st' Egp.
+Let snewb := snew g g' p out Esent.
+Let in_taggedb := in_tagged g g' p out Esent.
+Let p_rangeb := p_range p Hp.
+
+Lemma byz_p : byz p = false.
+Proof. pose proof Hp as X. unfold honest in X. apply andb_true_iff in X. destruct X as [_ X]. apply negb_true_iff in X. exact X. Qed.
+
+Lemma gp_p : gp g' p = st'.
+Proof. destruct (scasesb p) as [[_ E]|[N _]]; [exact E|congruence]. Qed.
+
+Lemma echoed_monob : forall q tg d, echoed g q tg d -> echoed g' q tg d.
+Proof. intros q tg d (dst & m & I & E). exists dst, m. split; auto. Qed.
+
+(* a payload that replaces a stored one is supported *)
+Lemma changed_mbar_Sup : forall tg x x', mbar (gp g p) tg = Some x -> mbar st' tg = Some x' -> x' <> x -> Sup g' tg (H x').
+Proof.
+  intros tg x x' M M' NE. destruct I2g' as (_ & Om' & Rh' & _).
+  destruct Q2 as (Mc & _). destruct (Mc tg) as [E|(y & E & C)]; [congruence|].
+  rewrite M' in E. inversion E; subst y. destruct C as [(N & _)|[D|LA]]; [congruence| |].
+  - apply (dbar_Sup g' Ig' p). rewrite gp_p. exact D.
+  - apply (laccept_Sup g' Rh' Om' p). rewrite gp_p. exact LA.
+Qed.
+
+Lemma K5_step : K5 g -> K5 g'.
+Proof.
+  intros IH q k id s F Nb. pose proof I4g' as (_ & _ & _ & _ & _ & _ & A1' & _).
+  pose proof I4g as (_ & _ & _ & _ & _ & _ & A1 & _).
+  assert (OLD : forall q0, filt (gp g q0) FSend k (id, k, s) = true ->
+            exists v, (exists dst m, In (k, dst, m) (gsent g') /\ mtag m = (id, k, s) /\ m_act m = 1 /\ m_pay m = v) /\
+                      mbar (gp g q0) (id, k, s) = Some v /\ echoed g' q0 (id, k, s) (H v)).
+  { intros q0 F0. destruct (IH _ _ _ _ F0 Nb) as (v & (dst & m & Im & Em) & M & E).
+    exists v. split; [exists dst, m; auto|]. split; auto. apply echoed_monob. exact E. }
+  destruct (scasesb q) as [[-> E]|[N E]]; rewrite E in *; [|apply OLD; exact F].
+  destruct (filt (gp g p) FSend k (id, k, s)) eqn:F0.
+  - destruct (OLD p F0) as (v & (dst & m & Im & Tm & Am & Pm) & M & Ec).
+    exists v. split; [exists dst, m; auto|]. split; auto.
+    destruct (mbar st' (id, k, s)) as [x'|] eqn:M'.
+    + destruct (Z.eq_dec x' v) as [->|NE]; auto. exfalso.
+      pose proof (changed_mbar_Sup _ _ _ M M' NE) as S.
+      pose proof (Sup_send_digest g' Ig' A1' k id s _ S Nb dst m Im Am Tm) as X. apply H_inj in X. congruence.
+    + exfalso. apply (mbar_keep g p st' out r offer Q2 (id, k, s)); congruence.
+  - destruct Q4 as (_ & Sc & _). destruct (Sc _ _ F0 F) as (m & Eo & Tm & Am & C).
+    destruct (can_recv_spec g p k m (CR k m Eo)) as (_ & [Y|Im]); [congruence|].
+    destruct C as [C|[(x & Mx & NE)|(Al & M')]].
+    + exfalso. apply C. unfold mtag in Tm. inversion Tm. reflexivity.
+    + exfalso. destruct I2g as (Th & _). destruct (Th _ _ _ Mx) as [Ec|S].
+      * destruct Ec as (dst & e & Ie & Te & Ae & _). pose proof Ig as (_ & _ & A3a & _).
+        pose proof (A3a _ _ _ Ie Ae) as X. rewrite Te in X.
+        assert (Je : m_j e = k). { unfold mtag in Te. inversion Te. reflexivity. } rewrite Je in X. congruence.
+      * pose proof (Sup_send_digest g Ig A1 k id s _ S Nb p m Im Am (eq_sym Tm)) as X. apply H_inj in X. congruence.
+    + exists (m_pay m). split; [exists p, m; auto|]. split; auto.
+      exists p, (Msg (m_id m) (m_j m) (m_s m) 2 (H (m_pay m))). split; [|repeat split; auto].
+      apply in_taggedb. apply Al. apply range_in. exact p_rangeb.
+Qed.
+
+Lemma G0e_step : G0e g -> G0e g'.
+Proof.
+  intros IH q l tg F. destruct (scasesb q) as [[-> E]|[N E]]; rewrite E in *.
+  - destruct (filt (gp g p) FEcho l tg) eqn:F0.
+    + destruct (IH _ _ _ F0) as [Y|(m & I & X)]; auto. right. exists m. auto.
+    + destruct Q4 as (_ & _ & _ & _ & _ & _ & _ & _ & Fc & _). destruct (Fc _ _ F0 F) as (m & Eo & Tm & Am & _).
+      destruct (can_recv_spec g p l m (CR l m Eo)) as (_ & [Y|I]); auto. right. exists m. auto.
+  - destruct (IH _ _ _ F) as [Y|(m & I & X)]; auto. right. exists m. auto.
+Qed.
+
+Lemma echo_unique' : forall l d1 m1 d2 m2, In (l, d1, m1) (gsent g') -> In (l, d2, m2) (gsent g') ->
+  m_act m1 = 2 -> m_act m2 = 2 -> mtag m1 = mtag m2 -> m_pay m1 = m_pay m2.
+Proof. pose proof Ig' as (_ & _ & _ & A3 & _). exact A3. Qed.
+
+Lemma G4e_step : G0e g -> G4e g -> G4e g'.
+Proof.
+  intros I0 IH q tg d TL. destruct (scasesb q) as [[-> E]|[N E]]; rewrite E in *.
+  - destruct (IH p tg d TL) as (L & ND & Len & AF & AC).
+    pose proof Q as Q0. destruct Q0 as (Fm & Ce & _).
+    pose proof Q4 as Q40. destruct Q40 as (_ & _ & _ & _ & _ & _ & _ & _ & Fc & _).
+    assert (OLD : forall l, filt (gp g p) FEcho l tg = true -> byz l = false -> sent_echo g' l p tg d -> In l L).
+    { intros l F0 Nb (m & Im & Tm & Am & Pm). apply AC; auto.
+      destruct (I0 _ _ _ F0) as [Y|(m0 & I0m & T0m & A0m)]; [congruence|].
+      exists m0. repeat split; auto. rewrite <- Pm. eapply echo_unique'; eauto. congruence. }
+    destruct (Ce tg d) as [Er|(l & m & Eo & Et & Ed & Am & F0 & Er & F1)].
+    + exists L. split; [exact ND|]. split; [congruence|]. split; [intros l I; apply Fm; auto|].
+      intros l F Nb S. destruct (filt (gp g p) FEcho l tg) eqn:F0; [apply OLD; auto|].
+      exfalso. destruct (Fc _ _ F0 F) as (m & Eo & Tm & Am & C).
+      destruct (can_recv_spec g p l m (CR l m Eo)) as (_ & [Y|Im]); [congruence|].
+      destruct S as (m2 & Im2 & Tm2 & Am2 & Pm2).
+      assert (Pd : m_pay m = d). { rewrite <- Pm2. eapply echo_unique'; eauto. congruence. }
+      rewrite Pd in C. destruct C as [C|C]; [congruence|lia].
+    + exists (l :: L). split; [|split; [|split]].
+      * constructor; auto. intros I. apply AF in I. congruence.
+      * cbn [length]. lia.
+      * intros l0 [<-|I]; auto.
+      * intros l0 F Nb S. destruct (filt (gp g p) FEcho l0 tg) eqn:F00; [right; apply OLD; auto|].
+        destruct (Fc _ _ F00 F) as (m' & Eo' & _). rewrite Eo in Eo'. inversion Eo'. left. auto.
+  - destruct (IH q tg d TL) as (L & ND & Len & AF & AC). exists L. split; [exact ND|]. split; [exact Len|]. split; [exact AF|].
+    intros l F Nb (m & Im & Tm & Am & Pm). apply AC; auto.
+    destruct (I0 _ _ _ F) as [Y|(m0 & I0m & T0m & A0m)]; [congruence|].
+    exists m0. repeat split; auto. rewrite <- Pm. eapply echo_unique'; eauto. congruence.
+Qed.
+
+Lemma dbar_stable : forall tg d, dbar (gp g p) tg = Some d -> dbar st' tg = Some d.
+Proof. intros tg d D. destruct Q as (_ & _ & _ & Db & _). destruct (Db tg) as [E|[E _]]; congruence. Qed.
+
+Lemma RQa_step : RQa g -> RQa g'.
+Proof.
+  intros IH q dst x I A. apply snewb in I. destruct I as [I|[-> I]].
+  - destruct (scasesb q) as [[-> E]|[N E]]; rewrite E; [apply dbar_stable|]; eapply IH; eauto.
+  - rewrite gp_p. destruct Q4 as (_ & _ & _ & _ & _ & _ & Qc & _). destruct (Qc _ _ I A) as (D & _). exact D.
+Qed.
+
+Lemma RQb_step : RQb g -> RQb g'.
+Proof.
+  intros IH q dst x I A i Ri. apply snewb in I. destruct I as [I|[-> I]].
+  - apply smonob. eapply IH; eauto.
+  - destruct Q4 as (_ & _ & _ & _ & _ & _ & Qc & _). destruct (Qc _ _ I A) as (_ & _ & _ & Al). apply in_taggedb. auto.
+Qed.
+
+Lemma K9_step : K9 g -> K9 g'.
+Proof.
+  intros IH l q tg F. destruct (scasesb l) as [[-> E]|[N E]]; rewrite E in *.
+  - destruct (filt (gp g p) FRequest q tg) eqn:F0.
+    + destruct (IH _ _ _ F0) as [Y|(m & I & X)]; auto. right. exists m. auto.
+    + destruct Q4 as (_ & _ & _ & Rc & _). destruct (Rc _ _ F0 F) as (m & Eo & Tm & Am & _).
+      destruct (can_recv_spec g p q m (CR q m Eo)) as (_ & [Y|I]); auto. right. exists m. auto.
+  - destruct (IH _ _ _ F) as [Y|(m & I & X)]; auto. right. exists m. auto.
+Qed.
+
+(* no request of p for tg is in the network while p has not fixed the digest; hence nobody has processed one *)
+Lemma no_request_yet : RQa g -> K9 g -> forall tg, dbar (gp g p) tg = None -> forall l, filt (gp g' l) FRequest p tg = true -> False.
+Proof.
+  intros Ra A9 tg D0 l F.
+  assert (OLD : forall l0, filt (gp g l0) FRequest p tg = true -> False).
+  { intros l0 F0. destruct (A9 _ _ _ F0) as [Y|(m & I & Tm & Am)]; [rewrite byz_p in Y; discriminate|].
+    pose proof (Ra _ _ _ I Am) as X. rewrite Tm in X. congruence. }
+  destruct (scasesb l) as [[-> E]|[N E]]; rewrite E in *; [|eapply OLD; eauto].
+  destruct (filt (gp g p) FRequest p tg) eqn:F0; [eapply OLD; eauto|].
+  destruct Q4 as (_ & _ & _ & Rc & _). destruct (Rc _ _ F0 F) as (m & Eo & Tm & Am & _).
+  destruct (can_recv_spec g p p m (CR p m Eo)) as (_ & [Y|I]); [rewrite byz_p in Y; discriminate|].
+  pose proof (Ra _ _ _ I Am) as X. rewrite <- Tm in X. congruence.
+Qed.
+
+Lemma RQc_step : RQa g -> K9 g -> RQc g -> RQc g'.
+Proof.
+  intros Ra A9 IH q dst x I A. apply snewb in I. destruct I as [I|[-> I]].
+  - destruct (IH _ _ _ I A) as (W & ND & Len & AW). exists W. split; [exact ND|]. split; [exact Len|].
+    intros l J. destruct (AW l J) as (R & [Y|(Ec & An)]); split; auto. right. split; [apply echoed_monob; exact Ec|].
+    intros F. destruct (scasesb l) as [[-> E]|[N E]]; rewrite E in *.
+    + destruct (filt (gp g p) FRequest q (mtag x)) eqn:F0.
+      * destruct (An eq_refl) as (a & Ia & Ea). exists a. split; auto.
+      * pose proof Q4 as Q40. destruct Q40 as (_ & _ & _ & Rc & _). destruct (Rc _ _ F0 F) as (m & Eo & Tm & Am & C).
+        destruct C as [C|(v & Mv & Iv)].
+        -- exfalso. pose proof I4g as (_ & _ & _ & _ & A3 & _). destruct Ec as (d0 & e & Ie & Te & Ae & _).
+           pose proof (A3 _ _ _ Ie Ae) as X. rewrite Te in X. congruence.
+        -- exists (Msg (m_id m) (m_j m) (m_s m) 5 v). split; [apply in_taggedb; exact Iv|]. split; [reflexivity|]. rewrite Tm. reflexivity.
+    + destruct (An F) as (a & Ia & Ea). exists a. split; auto.
+  - pose proof Q4 as Q40. destruct Q40 as (_ & _ & _ & _ & _ & _ & Qc & _). destruct (Qc _ _ I A) as (D1 & D0 & Rd & _).
+    assert (DN : dbar (gp g p) (mtag x) = None).
+    { destruct D0 as [D0|D0]; auto. exfalso. pose proof Ig as (_ & _ & _ & _ & _ & _ & A7 & _). apply A7 in D0. lia. }
+    assert (S : Sup g' (mtag x) (m_pay x)). { apply (dbar_Sup g' Ig' p). rewrite gp_p. exact D1. }
+    destruct S as (L & ND & Len & AL). exists L. split; [exact ND|]. split; [exact Len|].
+    intros l J. destruct (AL l J) as (R & [Y|Ec]); split; auto. right. split; auto.
+    intros F. exfalso. eapply no_request_yet; eauto.
+Qed.
+
+Lemma K10_step : K10 g -> K10 g'.
+Proof.
+  intros IH l q a I A. apply snewb in I. destruct I as [I|[-> I]].
+  - destruct (IH _ _ _ I A) as (R & S). split.
+    + destruct R as [Y|(m & Im & E)]; auto. right. exists m. auto.
+    + destruct S; [left; apply echoed_monob|right; apply (Sup_mono g g' p out Esent)]; auto.
+  - destruct Q4 as (_ & _ & _ & _ & Ac & _). destruct (Ac _ _ I A) as (m & Eo & Am & Tm & Mv). split.
+    + destruct (can_recv_spec g p q m (CR q m Eo)) as (_ & [Y|Im]); auto. right. exists m. auto.
+    + destruct I2g as (Th & _). destruct (Th _ _ _ Mv); [left; apply echoed_monob|right; apply (Sup_mono g g' p out Esent)]; auto.
+Qed.
+
+Lemma obsolete_stable : forall tg, obsolete (gp g p) tg = true -> obsolete st' tg = true.
+Proof.
+  intros [[id who] s] O. unfold obsolete in *. rewrite Ecur, Efifo. b2p. rewrite H0, H2, Z.eqb_refl. cbn.
+  apply Z.ltb_lt. pose proof I4g as (NSg & _).
+  destruct (dls_step g g' p st' out r offer Q Q2 Q4 DR Elog NSg) as [[_ D]|(w & s0 & v0 & _ & -> & D)]; rewrite D; [lia|].
+  unfold updZ. destruct (who =? w) eqn:X; b2p; subst; lia.
+Qed.
+
+Lemma TD_stable : forall q tg, TD g q tg -> TD g' q tg.
+Proof.
+  intros q tg [(v & I)|[I|O]].
+  - left. exists v. rewrite Elog. apply in_or_app. auto.
+  - destruct (scasesb q) as [[-> E]|[N E]]; [|right; left; rewrite E; exact I].
+    destruct Q4 as (_ & _ & _ & _ & _ & _ & _ & _ & _ & Bc & _). destruct (Bc tg I) as [J|[(who & v & Er)|O]].
+    + right. left. rewrite E. exact J.
+    + left. exists v. rewrite Elog, Er. apply in_or_app. right. cbn. auto.
+    + right. right. rewrite E. apply obsolete_stable. exact O.
+  - right. right. destruct (scasesb q) as [[-> E]|[N E]]; rewrite E; auto. apply obsolete_stable. exact O.
+Qed.
+
+Lemma tried_TD : forall tg, tried st' r tg -> TD g' p tg.
+Proof.
+  intros tg [(who & v & Er)|I].
+  - left. exists v. rewrite Elog, Er. apply in_or_app. right. cbn. auto.
+  - right. left. rewrite gp_p. exact I.
+Qed.
+
+Lemma K11_step : RQa g -> K10 g -> K11 g -> K11 g'.
+Proof.
+  intros Ra A10 IH q l tg F Nb.
+  assert (OLD : forall q0, filt (gp g q0) FAnswer l tg = true ->
+                TD g' q0 tg \/ exists a db, In (l, q0, a) (gsent g') /\ m_act a = 5 /\ mtag a = tg /\ dbar (gp g q0) tg = Some db /\ db <> H (m_pay a)).
+  { intros q0 F0. destruct (IH _ _ _ F0 Nb) as [T|(a & db & Ia & Aa & Ta & D & NE)]; [left; apply TD_stable; exact T|].
+    right. exists a, db. repeat split; auto. }
+  destruct (scasesb q) as [[-> E]|[N E]]; rewrite E in *.
+  - destruct (filt (gp g p) FAnswer l tg) eqn:F0.
+    + destruct (OLD p F0) as [T|(a & db & Ia & Aa & Ta & D & NE)]; [left; exact T|].
+      right. exists a, db. repeat split; auto. apply dbar_stable. exact D.
+    + destruct Q4 as (_ & _ & _ & _ & _ & Fc & _). destruct (Fc _ _ F0 F) as (m & Eo & Tm & Am & C).
+      destruct (can_recv_spec g p l m (CR l m Eo)) as (_ & [Y|Im]); [congruence|].
+      destruct C as [C|[(db & D & NE)|T]].
+      * exfalso. destruct (A10 _ _ _ Im Am) as ([Y|(m' & Im' & Am' & Tm')] & _); [rewrite byz_p in Y; discriminate|].
+        pose proof (Ra _ _ _ Im' Am') as X. rewrite Tm', <- Tm in X. congruence.
+      * right. exists m, db. repeat split; auto. apply dbar_stable. exact D.
+      * left. apply tried_TD. exact T.
+  - destruct (OLD q F) as [T|(a & db & Ia & Aa & Ta & D & NE)]; [left; exact T|]. right. exists a, db. repeat split; auto.
+Qed.
+
+Lemma K12_step : K12 g -> K12 g'.
+Proof.
+  intros IH q tg D.
+  assert (OLD : forall q0, dbar (gp g q0) tg <> None ->
+                TD g' q0 tg \/ exists x, m_act x = 4 /\ mtag x = tg /\ forall i, 0 <= i <= 2 * t -> In (q0, i, x) (gsent g')).
+  { intros q0 D0. destruct (IH _ _ D0) as [T|(x & Ax & Tx & Al)]; [left; apply TD_stable; exact T|].
+    right. exists x. repeat split; auto. }
+  destruct (scasesb q) as [[-> E]|[N E]]; rewrite E in *; [|apply OLD; exact D].
+  destruct (dbar (gp g p) tg) as [d0|] eqn:D0; [apply OLD; congruence|].
+  destruct Q4 as (_ & _ & _ & _ & _ & _ & _ & Dc & _). destruct (Dc tg D0 D) as [(x & Ax & Tx & Al)|[T|(Er & DZ)]].
+  - right. exists x. repeat split; auto.
+  - left. apply tried_TD. exact T.
+  - exfalso. apply (dbar_nonzero g' Ig' p tg 0); [rewrite gp_p; exact DZ|reflexivity].
+Qed.
+
+Lemma has_dbar_mono : forall tg, has_dbar g tg -> has_dbar g' tg.
+Proof.
+  intros tg (p' & d & D). destruct (scasesb p') as [[-> E]|[N E]].
+  - exists p, d. rewrite E. apply dbar_stable. exact D.
+  - exists p', d. rewrite E. exact D.
+Qed.
+
+Lemma K13_step : K13 g -> K13 g'.
+Proof.
+  intros (Aa & Ab & Ac). pose proof I4g as (NSg & (_ & DLb & _) & _).
+  assert (C' : forall l dst x, In (l, dst, x) (gsent g') -> m_act x = 7 -> m_id x = 0 -> has_dbar g' (mtag x)).
+  { intros l dst x I A7 Id. apply snewb in I. destruct I as [I|[-> I]]; [apply has_dbar_mono; eapply Ac; eauto|].
+    pose proof Q4 as Q40. destruct Q40 as (W & _ & _ & _ & _ & _ & _ & _ & _ & _ & Lc).
+    destruct (NSg p) as [_ F]. pose proof (Lc _ _ I A7 Hskip F) as LT.
+    destruct (W _ _ I) as (_ & S1); [lia|lia|].
+    destruct (DLb p (m_j x) (m_s x)) as (v & Iv); [lia|].
+    apply has_dbar_mono. unfold mtag. rewrite Id. eapply Aa; eauto. }
+  (* a tag validated at p in this step *)
+  assert (SV : forall w s, svalid st' (0, w, s) -> has_dbar g' (0, w, s)).
+  { intros w s [(d & D & _)|(x & M & (L & ND & Len & AL))].
+    - exists p, d. rewrite gp_p. exact D.
+    - destruct (nodup_exceeds_honest B L ND) as (l & J & NB); [lia|].
+      destruct (AL l J) as (F & _). destruct I2g' as (_ & _ & Rh' & _).
+      destruct (Rh' p l (0, w, s)) as (_ & [Y|(m & Im & Tm & Am & _)]); [rewrite gp_p; exact F|exfalso; auto|].
+      rewrite <- Tm. eapply C'; eauto. unfold mtag in Tm. inversion Tm. reflexivity. }
+  split; [|split]; auto.
+  - intros q w s v I. rewrite Elog in I. apply in_app_or in I. destruct I as [I|I]; [apply has_dbar_mono; eapply Aa; eauto|].
+    apply log_of_in in I. destruct I as (-> & who & Er).
+    pose proof Q2 as Q20. destruct Q20 as (_ & _ & _ & Dl & _). destruct (Dl _ _ _ Er) as (_ & [V|V]); auto.
+    apply has_dbar_mono. eapply Ab; eauto.
+  - intros q w s I. destruct (scasesb q) as [[-> E]|[N E]]; rewrite E in *; [|apply has_dbar_mono; eapply Ab; eauto].
+    pose proof Q2 as Q20. destruct Q20 as (_ & _ & _ & _ & Bf). destruct (Bf _ I) as [J|J]; auto.
+    apply has_dbar_mono. eapply Ab; eauto.
+Qed.
+
+Definition INV4b_ (g0 : gst) : Prop :=
+  K5 g0 /\ G0e g0 /\ G4e g0 /\ RQa g0 /\ RQb g0 /\ K9 g0 /\ RQc g0 /\ K10 g0 /\ K11 g0 /\ K12 g0 /\ K13 g0.
+
+Lemma INV4b_onestep : INV4b_ g -> INV4b_ g'.
+Proof.
+  intros (A1 & A2 & A3 & A4 & A5 & A6 & A7 & A8 & A9 & A10 & A11). unfold INV4b_.
+  split; [apply K5_step; auto|]. split; [apply G0e_step; auto|]. split; [apply G4e_step; auto|].
+  split; [apply RQa_step; auto|]. split; [apply RQb_step; auto|]. split; [apply K9_step; auto|].
+  split; [apply RQc_step; auto|]. split; [apply K10_step; auto|]. split; [apply K11_step; auto|].
+  split; [apply K12_step; auto|apply K13_step; auto].
+Qed.
+
+End OneStep4b.
+
+Lemma INV4b_init : INV4b_ ginit.
+Proof.
+  unfold INV4b_. split; [|split; [|split; [|split; [|split; [|split; [|split; [|split; [|split; [|split]]]]]]]]].
+  - intros q k id s F. cbn in F. discriminate.
+  - intros q l tg F. cbn in F. discriminate.
+  - intros q tg d TL. exists []. cbn. split; [constructor|]. split; [reflexivity|]. split; [intros l []|]. intros l F. discriminate.
+  - intros q dst x [].
+  - intros q dst x [].
+  - intros l q tg F. cbn in F. discriminate.
+  - intros q dst x [].
+  - intros l q a [].
+  - intros q l tg F. cbn in F. discriminate.
+  - intros q tg D. cbn in D. congruence.
+  - split; [|split].
+    + intros q w s v [].
+    + intros q w s [].
+    + intros l dst x [].
+Qed.
+
+Definition ALL (g : gst) : Prop := INV g /\ INV2 g /\ INV3 g /\ INV4a g /\ INV4b_ g.
+
+Lemma ALL_step : forall g e, noswitch e = true -> ALL g -> ALL (gstep g e).
+Proof.
+  intros g e NSe (I1 & I2 & I3 & I4 & I5).
+  pose proof (INV_step g e I1) as I1'. pose proof (INV2_step g e I1 I2) as I2'. pose proof (INV3_step g e I1 I3) as I3'.
+  pose proof (INV4a_step g e NSe I4) as I4'.
+  unfold ALL. split; [exact I1'|]. split; [exact I2'|]. split; [exact I3'|]. split; [exact I4'|].
+  destruct (gstep_cases4 g e NSe) as [E|(p & st' & out & r & offer & Hp & Q & Q2 & Q3 & Q4 & C1 & C3 & DR & BC & CR & E1 & E2 & E3)].
+  - rewrite E. exact I5.
+  - eapply INV4b_onestep; eauto.
+Qed.
+
+Theorem ALL_run : forall es, forallb noswitch es = true -> ALL (run es).
+Proof.
+  apply grun_ind_ns.
+  - unfold ALL. split; [exact INV_init|]. split; [exact INV2_init|]. split; [exact INV3_init|]. split; [exact INV4a_init|exact INV4b_init].
+  - exact ALL_step.
+Qed.
+
 (* ---- the full liveness clause of C14, as a statement (NOT proved; totality_digest above is the part that is) -------- *)
 Definition kind_of (a : Z) : fkind :=
   if a =? 1 then FSend else if a =? 2 then FEcho else if a =? 3 then FReady else if a =? 4 then FRequest else FAnswer.
@@ -1136,6 +1849,189 @@ Definition delivery_at_quiescence_statement : Prop :=
        forall q, hon q -> In (q, (id, j, s), v) (glog (run es))) /\
     (* totality: a slot delivered by one honest party is delivered by all *)
     (forall p j s v, In (p, (id, j, s), v) (glog (run es)) -> forall q, hon q -> exists v', In (q, (id, j, s), v') (glog (run es))).
+
+(* ---- the delivery clause at quiescence (FIFO root channel) ------------------------------------------------ *)
+Lemma intersect_honest_gen : forall (L1 L2 : list Z), NoDup L1 -> NoDup L2 ->
+  (forall l, In l L1 -> 0 <= l < n) -> (forall l, In l L2 -> 0 <= l < n) ->
+  n + Z.of_nat (length B) < Z.of_nat (length L1) + Z.of_nat (length L2) ->
+  exists l, In l L1 /\ In l L2 /\ ~ In l B.
+Proof.
+  intros L1 L2 ND1 ND2 R1 R2 Len.
+  set (C := filter (fun l => existsb (Z.eqb l) L2) L1).
+  set (D := filter (fun l => negb (existsb (Z.eqb l) L2)) L1).
+  assert (LC : (length C + length D = length L1)%nat).
+  { unfold C, D. clear. induction L1 as [|a r IH]; cbn; auto. destruct (existsb (Z.eqb a) L2); cbn; lia. }
+  assert (NDD : NoDup (D ++ L2)).
+  { apply NoDup_app_disjoint; auto.
+    - apply NoDup_filter; auto.
+    - intros x Ix I2. apply filter_In in Ix. destruct Ix as [_ Ix]. apply negb_true_iff in Ix.
+      apply in_existsb_eqb in I2. congruence. }
+  assert (LD : Z.of_nat (length (D ++ L2)) <= n).
+  { apply bounded_nodup_length; auto; [lia|]. intros l I. apply in_app_or in I. destruct I as [I|I]; auto.
+    apply filter_In in I. destruct I as [I _]. auto. }
+  rewrite app_length in LD.
+  assert (NC : NoDup C) by (apply NoDup_filter; auto).
+  destruct (nodup_exceeds_honest B C NC) as (l & Il & Nl); [lia|].
+  apply filter_In in Il. destruct Il as [I1 I2]. apply in_existsb_eqb in I2. eauto.
+Qed.
+
+(* a party that has fixed the digest of a slot has attempted its delivery once everything is handed over *)
+Lemma dbar_TD : forall g, ALL g -> handed_over g -> forall q tg d, hon q -> dbar (gp g q) tg = Some d -> TD g q tg.
+Proof.
+  intros g (I & I2 & _ & I4 & (_ & _ & _ & Ra & Rb & _ & Rc & A10 & A11 & A12 & _)) HO q tg d Hq D.
+  destruct (A12 q tg) as [T|(x & Ax & Tx & Al)]; [congruence|exact T|].
+  assert (I0 : In (q, 0, x) (gsent g)) by (apply Al; lia).
+  pose proof (Ra _ _ _ I0 Ax) as Dx. rewrite Tx, D in Dx. inversion Dx as [Pd]. clear Dx.
+  destruct (Rc _ _ _ I0 Ax) as (W & NDW & LenW & AW). rewrite Tx, <- Pd in AW.
+  destruct (intersect_honest_gen W (range (2 * t + 1))) as (l & JW & J2 & NB); auto.
+  { apply range_nodup. } { intros l J. apply AW in J. tauto. } { intros l J. apply range_in in J. lia. }
+  { unfold range at 1. rewrite map_length, seq_length. lia. }
+  apply range_in in J2. destruct (AW l JW) as (Rl & [Y|(Ec & An)]); [exfalso; auto|].
+  assert (Hl : hon l) by (apply honest_of; auto).
+  assert (Nbl : byz l = false). { destruct (byz l) eqn:Y; auto. exfalso; auto. }
+  assert (Iq : In (q, l, x) (gsent g)) by (apply Al; lia).
+  pose proof (HO _ _ _ Iq Hl) as F. rewrite Ax, Tx in F. cbn in F. specialize (F ltac:(lia)).
+  destruct (An F) as (a & Ia & Aa & Ta).
+  pose proof (HO _ _ _ Ia Hq) as Fa. rewrite Aa, Ta in Fa. cbn in Fa. specialize (Fa ltac:(lia)).
+  destruct (A11 _ _ _ Fa Nbl) as [T|(a' & db & Ia' & Aa' & Ta' & Db & NE)]; [exact T|].
+  exfalso. rewrite D in Db. inversion Db; subst db. apply NE.
+  destruct (A10 _ _ _ Ia' Aa') as (_ & [E'|S']); rewrite Ta' in *.
+  - pose proof I as (_ & _ & _ & A3 & _).
+    destruct Ec as (d1 & e1 & Ie1 & Te1 & Ae1 & Pe1). destruct E' as (d2 & e2 & Ie2 & Te2 & Ae2 & Pe2).
+    rewrite <- Pe1, <- Pe2. eapply A3; eauto. congruence.
+  - eapply (Sup_unique g I); eauto. eapply dbar_Sup; eauto.
+Qed.
+
+(* the deliver buffer drains in sequence order *)
+Lemma TD_delivered : forall g, ALL g -> buffers_drained g -> forall q w s, hon q -> 1 <= s -> TD g q (0, w, s) ->
+  (forall s', 1 <= s' < s -> exists v, In (q, (0, w, s'), v) (glog g)) -> exists v, In (q, (0, w, s), v) (glog g).
+Proof.
+  intros g (_ & _ & _ & (NSg & (DLa & DLb & DLc) & _) & _) BD q w s Hq S1 T IH.
+  destruct (NSg q) as [C F].
+  assert (LT : s < dls (gp g q) w -> exists v, In (q, (0, w, s), v) (glog g)) by (intros; apply DLb; lia).
+  destruct T as [T|[T|T]]; auto.
+  - pose proof (BD q Hq _ T) as ND. unfold deliverable in ND. rewrite C, F in ND. cbn in ND. rewrite orb_false_r in ND.
+    apply Z.eqb_neq in ND. destruct (Z.lt_ge_cases s (dls (gp g q) w)) as [X|X]; auto.
+    exfalso. pose proof (DLc q w) as D1. destruct (IH (dls (gp g q) w)) as (v & Iv); [lia|].
+    apply DLa in Iv. lia.
+  - unfold obsolete in T. rewrite C, F in T. cbn in T. apply Z.ltb_lt in T. auto.
+Qed.
+
+(* TOTALITY on the FIFO root channel: what one honest party has delivered, every honest party has delivered *)
+Theorem totality_at_quiescence : forall es, forallb noswitch es = true ->
+  handed_over (run es) -> buffers_drained (run es) ->
+  forall p tg v, In (p, tg, v) (glog (run es)) -> forall q, hon q -> In (q, tg, v) (glog (run es)).
+Proof.
+  intros es NSes HO BD. pose proof (ALL_run es NSes) as A. set (g := run es) in *.
+  pose proof A as (I & I2 & I3 & (NSg & (DLa & DLb & DLc) & _) & (_ & _ & _ & _ & _ & _ & _ & _ & _ & _ & (A13 & _))).
+  assert (RQ : ready_quiescent g).
+  { intros l q m Im Am Hq. pose proof (HO _ _ _ Im Hq) as F. rewrite Am in F. cbn in F. apply F. lia. }
+  (* existence, by induction on the sequence number *)
+  assert (EX : forall k : nat, forall w s p v, (Z.to_nat s <= k)%nat -> In (p, (0, w, s), v) (glog g) ->
+               forall q, hon q -> exists v', In (q, (0, w, s), v') (glog g)).
+  { induction k as [|k IHk]; intros w s p v Sk Ip q Hq.
+    - apply DLa in Ip. lia.
+    - pose proof (DLa _ _ _ _ _ Ip) as (_ & Rs).
+      destruct (A13 _ _ _ _ Ip) as (p' & d & Dp).
+      assert (Dq : dbar (gp g q) (0, w, s) = Some d).
+      { unfold g. eapply totality_digest; eauto. }
+      apply (TD_delivered g A BD q w s Hq); [lia|eapply dbar_TD; eauto|].
+      intros s' Rs'. destruct (DLb p w s') as (v1 & I1); [lia|].
+      eapply (IHk w s' p v1); eauto. lia. }
+  intros p [[id w] s] v Ip q Hq. pose proof (DLa _ _ _ _ _ Ip) as (-> & _).
+  destruct (EX (Z.to_nat s) w s p v (le_n _) Ip q Hq) as (v' & Iq).
+  assert (v' = v); [|subst; exact Iq].
+  apply H_inj. unfold g in *. eapply agreement_digest_full; eauto.
+Qed.
+
+
+Lemma All_length : n - t <= Z.of_nat (length (filter notB (range n))).
+Proof.
+  pose proof (filter_notB_length (range n) (range_nodup n)) as X.
+  unfold range in X at 1. rewrite map_length, seq_length in X. lia.
+Qed.
+
+(* VALIDITY, first part: every honest party attempts the delivery of every slot an honest sender broadcast *)
+Lemma slot_TD : forall g, ALL g -> G2e g -> handed_over g -> forall j dst s v, hon j ->
+  In (j, dst, Msg 0 j s 1 v) (gsent g) -> forall q, hon q -> TD g q (0, j, s).
+Proof.
+  intros g A A2e HO j dst s v Hj Im q Hq.
+  pose proof A as (I & I2 & (A0 & A1 & A2 & A3 & A4) & (NSg & _ & K1g & K2g & _ & U0g & U1g & U2g) & (K5g & G0eg & G4eg & _)).
+  set (tg := (0, j, s)). set (d := H v).
+  assert (Nbj : byz j = false). { unfold honest in Hj. b2p. destruct (byz j); auto; discriminate. }
+  assert (Nbq : byz q = false). { unfold honest in Hq. b2p. destruct (byz q); auto; discriminate. }
+  assert (RANGE : forall q', hon q' -> 0 <= q' < n). { intros q' Hq'. unfold honest, is_party in Hq'. b2p. lia. }
+  (* (a) the r-send went to everybody *)
+  assert (SA : forall i, 0 <= i < n -> In (j, i, Msg 0 j s 1 v) (gsent g)).
+  { destruct (U0g _ _ _ Im eq_refl) as (_ & _ & Rs). cbn in Rs. destruct (U2g j) as (_ & Al).
+    destruct (Al s Rs) as (v' & Av). intros i Ri. specialize (Av i Ri).
+    assert (v' = v); [|subst; exact Av]. eapply (U1g j _ (Msg 0 j s 1 v') _ (Msg 0 j s 1 v)); eauto. }
+  (* (b) every honest party echoed H v *)
+  assert (EC : forall q', hon q' -> echoed g q' tg d).
+  { intros q' Hq'. pose proof (HO _ _ _ (SA q' (RANGE q' Hq')) Hq') as F. cbn in F. specialize (F ltac:(lia)).
+    destruct (K5g q' j 0 s F Nbj) as (v1 & (dst1 & m1 & Im1 & Tm1 & Am1 & Pm1) & _ & E1).
+    assert (v1 = v); [|subst; exact E1].
+    rewrite <- Pm1. eapply (U1g j _ m1 _ (Msg 0 j s 1 v)); eauto. }
+  assert (TL : toolong tg d = false) by apply toolong_ok.
+  (* (c) every honest party has the echo quorum *)
+  assert (ED : forall q', hon q' -> n - t <= ed (gp g q') tg d).
+  { intros q' Hq'. destruct (G4eg q' tg d TL) as (L & ND & Len & AF & AC).
+    assert (INC : incl (filter notB (range n)) L).
+    { intros l J. apply filter_In in J. destruct J as [J NB]. apply notB_spec in NB. apply range_in in J.
+      assert (Hl : hon l) by (apply honest_of; auto).
+      assert (Nbl : byz l = false). { destruct (byz l) eqn:Y; auto. exfalso; auto. }
+      destruct (EC l Hl) as (dst' & e & Ie & Te & Ae & Pe).
+      pose proof (K2g _ _ _ Ie Ae q' (RANGE q' Hq')) as Iq.
+      pose proof (HO _ _ _ Iq Hq') as F. rewrite Ae, Te in F. cbn in F. specialize (F ltac:(lia)).
+      apply AC; auto. exists e. auto. }
+    apply NoDup_incl_length in INC; [|apply NoDup_filter; apply range_nodup].
+    pose proof All_length. lia. }
+  (* (d)-(e) the ready quorum *)
+  destruct (A4 q tg d TL) as (L & ND & Len & AF & AC).
+  assert (CNT : forall l, hon l -> (exists dst', sent_ready g l dst' tg d) -> In l L).
+  { intros l Hl (dst' & x & Ix & Tx & Ax & Px).
+    assert (Nbl : byz l = false). { unfold honest in Hl. b2p. destruct (byz l); auto; discriminate. }
+    pose proof (A1 _ _ _ Ix Ax q (RANGE q Hq)) as Iq.
+    pose proof (HO _ _ _ Iq Hq) as F. rewrite Ax, Tx in F. cbn in F. specialize (F ltac:(lia)).
+    apply AC; auto. exists x. auto. }
+  assert (R2 : 2 * t + 1 <= rd (gp g q) tg d).
+  { destruct (Z_lt_le_dec 0 t) as [T0|T0].
+    - assert (INC : incl (filter notB (range n)) L).
+      { intros l J. apply filter_In in J. destruct J as [J NB]. apply notB_spec in NB. apply range_in in J.
+        assert (Hl : hon l) by (apply honest_of; auto). apply CNT; auto. apply A2; auto. right. apply ED. exact Hl. }
+      apply NoDup_incl_length in INC; [|apply NoDup_filter; apply range_nodup].
+      pose proof All_length as AL. lia.
+    - assert (T0' : t = 0) by lia. destruct (A2e q tg d (ED q Hq)) as [S|R]; [|lia].
+      pose proof (CNT q Hq S) as Jq. destruct L as [|a r]; [contradiction|]. cbn [length] in Len. lia. }
+  pose proof (A3 _ _ _ R2) as NN. destruct (dbar (gp g q) tg) as [d'|] eqn:Dq; [|congruence].
+  (* (g) payload retrieval / delivery attempt *)
+  eapply dbar_TD; eauto.
+Qed.
+
+(* VALIDITY on the FIFO root channel: every broadcast of an honest sender has been delivered by every honest party *)
+Theorem validity_at_quiescence : forall es, forallb noswitch es = true ->
+  handed_over (run es) -> buffers_drained (run es) ->
+  forall j dst s v, hon j -> In (j, dst, Msg 0 j s 1 v) (gsent (run es)) ->
+  forall q, hon q -> In (q, (0, j, s), v) (glog (run es)).
+Proof.
+  intros es NSes HO BD j dst s v Hj Im q Hq. pose proof (ALL_run es NSes) as A. pose proof (G2e_run es) as A2e. set (g := run es) in *.
+  pose proof A as (I & (_ & _ & _ & _ & J8bg) & _ & (NSg & _ & _ & _ & _ & U0g & U1g & U2g) & _).
+  assert (Nbj : byz j = false). { unfold honest in Hj. b2p. destruct (byz j); auto; discriminate. }
+  destruct (U2g j) as (_ & Al).
+  assert (EX : forall k : nat, forall s0, (Z.to_nat s0 <= k)%nat -> 1 <= s0 <= sq (gp g j) ->
+               exists v', In (q, (0, j, s0), v') (glog g)).
+  { induction k as [|k IHk]; intros s0 Sk Rs; [lia|].
+    destruct (Al s0 Rs) as (v0 & Av).
+    apply (TD_delivered g A BD q j s0 Hq); [lia| |].
+    - eapply (slot_TD g A A2e HO j 0 s0 v0); eauto. apply Av. unfold honest, is_party in Hq. b2p. lia.
+    - intros s' Rs'. apply IHk; lia. }
+  destruct (U0g _ _ _ Im eq_refl) as (_ & _ & Rs). cbn in Rs.
+  destruct (EX (Z.to_nat s) s (le_n _) Rs) as (v' & Iq).
+  assert (v' = v); [|subst; exact Iq].
+  apply H_inj. pose proof (J8bg _ _ _ Iq) as S.
+  apply (Sup_send_digest g I U1g j 0 s _ S Nbj dst (Msg 0 j s 1 v) Im); reflexivity.
+Qed.
+
 
 End Bracha.
 
@@ -1218,3 +2114,84 @@ Lemma quiet_run_quiescent : ready_quiescent 4 (fun _ => false) quiet_run.
 Proof. apply rq_check_sound. vm_compute. reflexivity. Qed.
 Lemma quiet_run_dbar : dbar (gp quiet_run 0) (0, 0, 1) = Some 85.
 Proof. vm_compute. reflexivity. Qed.
+
+(* ---- a fully quiescent n = 4, t = 1 run: every message handed over, deliver buffers empty ------------------------ *)
+Definition done_events : list event :=
+  let snd_ := Msg 0 0 1 1 42 in let ech := Msg 0 0 1 2 85 in let rdy := Msg 0 0 1 3 85 in
+  EBcast 0 42 0 ::
+  map (fun p => ERecv p 0 snd_) [0;1;2;3] ++
+  flat_map (fun p => map (fun l => ERecv p l ech) [0;1;2;3]) [0;1;2;3] ++
+  flat_map (fun p => map (fun l => ERecv p l rdy) [0;1;2;3]) [0;1;2;3].
+Notation done_run := (grun 4 1 0 Hodd (fun _ _ => false) (fun _ => false) done_events).
+
+Definition ho_check (g : gst) : bool :=
+  forallb (fun e : Z * Z * msg => match e with (l, q, m) =>
+             if (1 <=? m_act m) && (m_act m <=? 5) then filt (gp g q) (kind_of (m_act m)) l (mtag m) else true end) (gsent g).
+Lemma ho_check_sound : forall n byz g, ho_check g = true -> handed_over n byz g.
+Proof.
+  intros n byz g C l q m I _ R. unfold ho_check in C. rewrite forallb_forall in C. specialize (C _ I). cbn in C.
+  destruct ((1 <=? m_act m) && (m_act m <=? 5)) eqn:X; auto. apply andb_false_iff in X. destruct X as [X|X]; b2p; lia.
+Qed.
+Definition bd_check (n : Z) (g : gst) : bool :=
+  forallb (fun q => forallb (fun tg => negb (deliverable (gp g q) tg)) (dbuf (gp g q))) (range n).
+Lemma bd_check_sound : forall n byz g, bd_check n g = true -> buffers_drained n byz g.
+Proof.
+  intros n byz g C q Hq tg I. unfold bd_check in C. rewrite forallb_forall in C.
+  assert (Rq : In q (range n)). { apply range_in. unfold honest, is_party in Hq. b2p. lia. }
+  specialize (C q Rq). rewrite forallb_forall in C. specialize (C tg I). apply negb_true_iff in C. exact C.
+Qed.
+Lemma done_run_quiescent : forallb noswitch done_events = true /\
+  handed_over 4 (fun _ => false) done_run /\ buffers_drained 4 (fun _ => false) done_run.
+Proof.
+  split; [vm_compute; reflexivity|]. split; [apply ho_check_sound|apply bd_check_sound]; vm_compute; reflexivity.
+Qed.
+Lemma done_run_log : glog done_run = [(0, (0, 0, 1), 42); (1, (0, 0, 1), 42); (2, (0, 0, 1), 42); (3, (0, 0, 1), 42)].
+Proof. vm_compute. reflexivity. Qed.
+
+(* ---- finding F10: with channel switches totality FAILS (the out-of-order handler answers across channels) ------------ *)
+Definition byz3 (l : Z) : bool := l =? 3.
+Definition hon3 : list Z := [0; 1; 2].
+(* the faulty P3 behaving like an honest sender of slot (id, 3, s) with value v, everything handed over among P0..P2 *)
+Definition bcast3 (id s v : Z) : list event :=
+  map (fun p => ERecv p 3 (Msg id 3 s 1 v)) hon3 ++
+  flat_map (fun p => map (fun l => ERecv p l (Msg id 3 s 2 (Hodd v))) hon3) hon3 ++
+  flat_map (fun p => map (fun l => ERecv p l (Msg id 3 s 3 (Hodd v))) hon3) hon3.
+Definition cross_events : list event :=
+  [ESetID 0 7 true; ESetID 1 8 true; ESetID 2 8 true] ++          (* P0 on channel 7, P1 and P2 on channel 8 *)
+  bcast3 8 1 50 ++                                                 (* slot (8,3,1): deliver_s[3] = 2 at P1, P2 *)
+  [ERecv 1 3 (Msg 7 3 1 1 51); ERecv 2 3 (Msg 7 3 1 1 51)] ++      (* payload of (7,3,1) to P1, P2 only: no quorum ever *)
+  flat_map (fun p => map (fun l => ERecv p l (Msg 7 3 1 2 (Hodd 51))) [1; 2]) hon3 ++
+  bcast3 7 2 52 ++                                                 (* slot (7,3,2) properly: P0 buffers it and asks for slot 1 *)
+  [EIdle 0; ERecv 1 0 (Msg 7 3 1 6 6); ERecv 2 0 (Msg 7 3 1 6 6);  (* P1, P2 answer although they sit on channel 8 *)
+   ERecv 0 1 (Msg 7 3 1 7 51); ERecv 0 2 (Msg 7 3 1 7 51); ERecv 0 3 (Msg 7 3 1 7 51); EIdle 0;   (* P0 delivers slots 1, 2 *)
+   EUnsetID 1 true; ESetID 1 7 true; EUnsetID 2 true; ESetID 2 7 true; EIdle 1; EIdle 2].         (* P1, P2 come to channel 7 *)
+Notation cross_run := (grun 4 1 0 Hodd (fun _ _ => false) byz3 cross_events).
+
+Definition ho_check_hon (n : Z) (byz : Z -> bool) (g : gst) : bool :=
+  forallb (fun e : Z * Z * msg => match e with (l, q, m) =>
+             if honest n byz q && (1 <=? m_act m) && (m_act m <=? 5) then filt (gp g q) (kind_of (m_act m)) l (mtag m) else true end) (gsent g).
+Lemma ho_check_hon_sound : forall n byz g, ho_check_hon n byz g = true -> handed_over n byz g.
+Proof.
+  intros n byz g C l q m I Hq R. unfold ho_check_hon in C. rewrite forallb_forall in C. specialize (C _ I). cbn in C.
+  rewrite Hq in C. cbn in C. destruct ((1 <=? m_act m) && (m_act m <=? 5)) eqn:X; auto.
+  apply andb_false_iff in X. destruct X as [X|X]; b2p; lia.
+Qed.
+
+Lemma cross_run_log : glog cross_run = [(1, (8, 3, 1), 50); (2, (8, 3, 1), 50); (0, (7, 3, 1), 51); (0, (7, 3, 2), 52)].
+Proof. vm_compute. reflexivity. Qed.
+
+(* one faulty party out of four, every protocol message between honest parties handed over, deliver buffers drained, all honest
+   parties on the FIFO channel 7: P0 has delivered slot (7,3,1), P1 never will *)
+Theorem totality_with_switches_refuted : ~ delivery_at_quiescence_statement 4 1 0 Hodd (fun _ _ => false) byz3.
+Proof.
+  intros S. specialize (S cross_events 7).
+  assert (HO : handed_over 4 byz3 cross_run) by (apply ho_check_hon_sound; vm_compute; reflexivity).
+  assert (BD : buffers_drained 4 byz3 cross_run) by (apply bd_check_sound; vm_compute; reflexivity).
+  assert (CH : forall q, honest 4 byz3 q = true -> cur (gp cross_run q) = 7 /\ fifo (gp cross_run q) = true).
+  { intros q Hq. unfold honest, is_party, byz3 in Hq. b2p.
+    assert (Q3 : q = 0 \/ q = 1 \/ q = 2) by lia. destruct Q3 as [E | [E | E]]; rewrite E; vm_compute; auto. }
+  destruct (S HO BD CH) as [_ T].
+  assert (I0 : In (0, (7, 3, 1), 51) (glog cross_run)) by (rewrite cross_run_log; cbn; auto).
+  destruct (T 0 3 1 51 I0 1 eq_refl) as (v' & I1). rewrite cross_run_log in I1. cbn in I1.
+  repeat (destruct I1 as [I1|I1]; [discriminate I1|]). exact I1.
+Qed.
